@@ -283,7 +283,7 @@ func (o *Outcome) Finish(verifDir string, seed int64) int {
 	replay := ""
 	if len(viol) > 0 || len(hard) > 0 {
 		exit = 1
-		outDir := filepath.Join(verifDir, "out")
+		outDir := filepath.Join(writeRoot(verifDir), "out")
 		os.MkdirAll(outDir, 0o755)
 		replay = filepath.Join(outDir, fmt.Sprintf("%s.%s.replay.json", id, o.Tier))
 		rb, _ := json.MarshalIndent(map[string]any{
@@ -343,9 +343,9 @@ func (o *Outcome) Finish(verifDir string, seed int64) int {
 		"wall_s":      o.Wall.Seconds(),
 		"violations":  len(viol) + len(hard),
 	}
-	os.MkdirAll(filepath.Join(verifDir, "evidence"), 0o755)
+	os.MkdirAll(filepath.Join(writeRoot(verifDir), "evidence"), 0o755)
 	eb, _ := json.MarshalIndent(ev, "", " ")
-	if err := os.WriteFile(filepath.Join(verifDir, "evidence", id+".json"), eb, 0o644); err != nil {
+	if err := os.WriteFile(filepath.Join(writeRoot(verifDir), "evidence", id+".json"), eb, 0o644); err != nil {
 		fmt.Printf("  cannot write evidence: %v\n", err)
 		exit = 1
 	}
@@ -362,4 +362,16 @@ func cfgTag(c string) string {
 		return ""
 	}
 	return "(" + c + ")"
+}
+
+// WriteRoot, when non-empty, redirects the evidence and replay files (used when
+// a change is analysed in memory with -patch, so that the committed evidence of
+// the real tree is not overwritten).
+var WriteRoot string
+
+func writeRoot(verifDir string) string {
+	if WriteRoot != "" {
+		return WriteRoot
+	}
+	return verifDir
 }
